@@ -31,11 +31,11 @@ out = ["## 10. Seeded changes: which checks catch which", "",
        "fails with it and passes without it) before keeping it under `seeded/<id>/` (patch.diff, demo.rs, meta.json). `tools/seeded.py run <id>` applies the patch to /repo, "
        "runs the listed checks (quick tier) and undoes it; the table is generated from the recorded outcomes. *caught* = exit 1 with a VIOLATION line naming the obligation; "
        "*undecided* = exit 2 (the unit no longer extracts/verifies and no witness harness produced a counterexample); *missed* = exit 0.", "",
-       "Six batches were written (A-D: first two batches, E-H: batches 3-5 aimed at the code that came under contract later, P-S: batch 6 aimed at the indicator-level constancy contracts and the extended C15 laws). What the misses and 'undecided' answers of each batch led to: "
+       "Seven batches were written (A-D: first two batches, E-H: batches 3-5 aimed at the code that came under contract later, P-S: batch 6 aimed at the indicator-level constancy contracts and the extended C15 laws, C11/C18 P-R: batch 7 aimed at the default configurations and the text forms). What the misses and 'undecided' answers of each batch led to: "
        "batch 2 - Sequence::apply / new_fn / reversal warm-up put under contract or bounded harness; batch 3 - result hints made contract-level (`>>W`), R::signum / R::from, the `get` alias in the SMM unit, "
        "existential-free CMF postcondition, odd-length apply witness, Kaufman's filtered signal specified, SMM quad witness with its own timeout; batch 4 - rule R11 (serde error construction), prefix anchors, "
        "R::is_normal, the dyn harness extended to `over` with history, ma_dispatch added to C15, (2,2) reversal harnesses, a driver fix (functions carrying an attribute were not credited with their errors); "
-       "batch 5 - vk_window_get (complete), the window-1 bit harness for the sign of zero (thorough tier); batch 6 - short `//@replace` anchors (C08-Q, a pivot detector seeded with the price, first ended as a lost anchor; now it fails AwesomeOscillator::init's const_state postcondition), the bounded Conv weight-profile harness (C15-Q trims trailing zero weights in a new `while` loop: Verus rejects the loop without a contract and CBMC runs out of memory on the Vec shrink, so it stays undecided); C08-P (ParabolicSAR `<` to `<=`) is caught only because the step contract now fixes the acceleration counter (psar_step). The outcomes below are the ones recorded at the last run of each change; the early changes whose units were "
+       "batch 5 - vk_window_get (complete), the window-1 bit harness for the sign of zero (thorough tier); batch 6 - short `//@replace` anchors (C08-Q, a pivot detector seeded with the price, first ended as a lost anchor; now it fails AwesomeOscillator::init's const_state postcondition), the bounded Conv weight-profile harness (C15-Q trims trailing zero weights in a new `while` loop: Verus rejects the loop without a contract and CBMC runs out of memory on the Vec shrink, so it stays undecided); C08-P (ParabolicSAR `<` to `<=`) is caught only because the step contract now fixes the acceleration counter (psar_step); batch 7 - all six caught: the default-configuration harness names the indicator whose default no longer validates, MA::from_str mapping `tema` to TMA fails the from_str postcondition, and the two changes that replace a std text primitive (`parse::<usize>() as PeriodType`, `trim_start`) make the unit lose its anchor / be rejected, after which the concrete-spelling Kani harnesses supply the failing input (`sma-256` accepted, `LOW ` rejected). The outcomes below are the ones recorded at the last run of each change; the early changes whose units were "
        "touched afterwards (window, SMM, combinators, reversal, Action, serde) were re-run against the final machinery.", "",
        "| id | confirmed | what it needs to manifest (author's words, first line) | outcome per check |", "|---|---|---|---|"]
 for r in rows:
